@@ -349,6 +349,50 @@ fn submessage_sender_from_every_entry_point() {
     }
 }
 
+/// found missing by seed C05f: two funded calls emitted from ONE response of the sudo / migrate /
+/// execute entry point; when the second cannot be paid the whole call fails and the first one's funds are
+/// back with the sender
+fn two_funded_calls_from_every_root_entry_point() {
+    let mut w = world(2);
+    let (k0, k1, user) = (w.ks[0].clone(), w.ks[1].clone(), w.user.clone());
+    let (f1, f2) = (sym_u128("f1", 1, BAL), sym_u128("f2", 1, BAL));
+    let call = |f: Uint128| WasmMsg::Execute { contract_addr: k1.to_string(), msg: Script::new().then(Step::Mark { tag: "paid".into() }).bin(), funds: vec![coin(f, "x")] };
+    let script = Script::new().sub(call(f1), ReplyOn::Never, 1, None).sub(call(f2), ReplyOn::Never, 2, None);
+    let root = choose(3);
+    let before = snapshot(&w.app);
+    sc::trace_clear();
+    let r = catch(|| match root {
+        0 => w.app.execute_contract(user.clone(), k0.clone(), &script, &[]),
+        1 => w.app.wasm_sudo(k0.clone(), &script),
+        _ => w.app.migrate_contract(user.clone(), k0.clone(), &script, 1),
+    });
+    let r = match r {
+        Ok(r) => r,
+        Err(p) => {
+            failure("no_panic", "panic", p);
+            return;
+        }
+    };
+    let covered = decide(le(add(v(f1), v(f2)), w.bal[0]));
+    match (r.is_ok(), covered) {
+        (true, true) => {
+            witness("both_paid");
+            check("funds_moved", eq(v(balance(&w.app, &k1, "x")), add(w.bal[1], add(v(f1), v(f2)))));
+            check("funds_moved", eq(v(balance(&w.app, &k0, "x")), sub(w.bal[0], add(v(f1), v(f2)))));
+        }
+        (false, false) => {
+            witness("second_unpaid");
+            check_unchanged("failed_call_returns_funds", &w.app, &before);
+        }
+        (true, false) => {
+            check_native("uncovered_funds_fail_the_call", false, || format!("root entry {}", root));
+        }
+        (false, true) => {
+            check_native("covered_funds_succeed", false, || format!("root entry {}: {:?}", root, r.as_ref().err().map(|e| e.to_string())));
+        }
+    }
+}
+
 pub fn scenarios(_tier: &str) -> Vec<Scenario> {
     vec![
         Scenario::new(
@@ -358,5 +402,6 @@ pub fn scenarios(_tier: &str) -> Vec<Scenario> {
         ),
         Scenario::new("instantiate_sudo_migrate", &["instantiate", "sudo", "migrate"], other_entry_points),
         Scenario::new("submessage_sender_from_every_entry_point", &["callee_ran"], submessage_sender_from_every_entry_point),
+        Scenario::new("two_funded_calls_from_execute_sudo_migrate", &["both_paid", "second_unpaid"], two_funded_calls_from_every_root_entry_point),
     ]
 }
